@@ -277,6 +277,19 @@ def random_doc(rng, rich=True):
       r["b"], r["e"] = tstr(b), tstr(e)
     regions.append(r)
   body = [_rand_div(rng, nreg, dens, rich, 0, False) for _ in range(rng.choice([1, 1, 2, 3]))]
+  if rng.random() < 0.2:
+    # a paragraph that is alone in its interval and holds nothing but preserved white space inside a styled span (its
+    # payload would be tags around white space: no cue, and no cue number either), followed by ordinary cues
+    reg = rng.randrange(nreg) if nreg else -1
+    if nreg:
+      regions[reg].pop("b", None)          # the region of these paragraphs is always active
+      regions[reg].pop("e", None)
+    blank = {"k": "p", "reg": reg, "sp": "p", "st": {}, "b": tstr(40), "e": tstr(42),
+             "kids": [{"k": "span", "sp": "p", "st": rng.choice([{"fw": "bold"}, {"td": "u"}, {"col": "red"}, {"fs": "italic"}]),
+                       "kids": [{"k": "t", "s": rng.choice([" ", "  ", " \t "])}]}]}
+    after = [{"k": "p", "reg": reg, "sp": "", "st": {}, "b": tstr(43 + 2 * k), "e": tstr(44 + 2 * k),
+              "kids": [{"k": "span", "sp": "", "st": {}, "kids": [{"k": "t", "s": "after%d" % k}]}]} for k in range(2)]
+    body.append({"k": "div", "reg": -1, "kids": [blank] + after})
   return {"regions": regions, "body": body}
 
 
